@@ -358,6 +358,8 @@ fn settings(r: &mut Sm, k: usize) -> Vec<Setting> {
     for (c, rad) in [(r.quat(), 2.6), (r.quat(), 3.0), ([1.0, 0.0, 0.0, 0.0], 1.0), (axis_angle_q([0.6, 0.0, 0.8], 2.6), 1.2)] {
         v.push(Setting { spec: Spec::plain(Wrap::So3, CK::So3 { bounds: Some((c, rad)) }, None), via: "direct" });
     }
+    // a box with more than 8 / 16 coordinates
+    v.push(Setting { spec: Spec::plain(Wrap::R, CK::R { n: 17, bounds: Some(rb(r, 17)) }, None), via: "direct" });
     for i in 0..k {
         let n = [1usize, 3, 6, 2, 4, 5, 6, 2][i % 8];
         v.push(Setting { spec: Spec::plain(Wrap::R, CK::R { n, bounds: Some(rb(r, n)) }, None), via: "direct" });
